@@ -1,39 +1,38 @@
 (* C28 - In-place changes to Json and array values are persisted.
    Property theorems only: each is closed by `exact <lemma>`; Print Assumptions must report a closed term.
    [wr_gen] / cpython_* / tracked_* are the tables regenerated from /repo's ormtypes.py and the running CPython on every run
-   (Gen/Mutators.v); the statements quantify over all documents, all paths and all operation sequences. *)
+   (Gen/Mutators.v); the statements quantify over all documents, all paths and all operation sequences.
+   Since fix f0ecc86 (+=, *=, |= wrapped; extend / slice assignment listify their iterable) the statements are unconditional. *)
 Require Import PonyV.Base.PyBase PonyV.Model.C28Tracked PonyV.Gen.Mutators PonyV.Model.C28Wrapped PonyV.Proofs.C28Proofs.
-#[local] Open Scope Z_scope.   (* (also keeps the dependency scanner of tools/vlib.py linear: the line after Require must not start with an identifier) *)
+#[local] Open Scope Z_scope.   (* (the line after Require must not start with an identifier: dependency scanner) *)
 
 (* every container reachable from the attribute value is a Tracked* instance bound to one (object, attribute), after any
-   sequence of mutations at any depth, commits and re-loads in new sessions -- outside the recorded defect classes *)
-Theorem C28_wrap_inv_except_known : forall ops o v,
-  forallb (fun x => negb (known_bad x)) ops = true ->
-  exists o', tagged o' (root (run wr_gen ops (load o v))) = true.
+   sequence of mutations (every list / dict mutator, any iterable argument) at any depth, commits and re-loads in new sessions *)
+Theorem C28_wrap_inv : forall ops o v, exists o', tagged o' (root (run wr_gen ops (load o v))) = true.
 Proof. exact wrap_inv_gen. Qed.
-Print Assumptions C28_wrap_inv_except_known.
+Print Assumptions C28_wrap_inv.
 
-(* the same for any table of wrapped methods: operations through wrapped methods with list-typed iterables keep the invariant *)
-Theorem C28_wrap_inv : forall wr ops st,
+(* the same for any table of wrapped methods: operations through wrapped methods keep the invariant *)
+Theorem C28_wrap_inv_any_table : forall wr ops st,
   forallb (op_ok wr) ops = true -> well_tracked st -> synced st ->
   well_tracked (run wr ops st) /\ synced (run wr ops st).
 Proof. exact run_inv. Qed.
-Print Assumptions C28_wrap_inv.
+Print Assumptions C28_wrap_inv_any_table.
 
-(* a wrapped mutator applied at any path of a well-tracked value either raises and changes nothing or sets the write bit *)
+(* a mutator applied at any path of a well-tracked value either raises and changes nothing or sets the write bit *)
 Theorem C28_dirty : forall st p a,
-  well_tracked st -> act_ok wr_gen a = true -> is_read a = false ->
+  well_tracked st -> is_read a = false ->
   match update_at wr_gen p a (root st) with
   | Some _ => dirty (step wr_gen st (OAct p a)) = true
   | None => step wr_gen st (OAct p a) = st
   end.
-Proof. exact (dirty_or_unchanged wr_gen). Qed.
+Proof. exact dirty_gen. Qed.
 Print Assumptions C28_dirty.
 
 Theorem C28_value_changed_dirty : forall st p a,
-  well_tracked st -> act_ok wr_gen a = true ->
+  well_tracked st ->
   untrack (root (step wr_gen st (OAct p a))) <> untrack (root st) -> dirty (step wr_gen st (OAct p a)) = true.
-Proof. exact (value_changed_dirty wr_gen). Qed.
+Proof. exact value_changed_dirty_gen. Qed.
 Print Assumptions C28_value_changed_dirty.
 
 (* reading (any chain of __getitem__ and a non-mutating call) changes nothing: neither the value nor the write bit *)
@@ -41,27 +40,27 @@ Theorem C28_read_clean : forall st p, step wr_gen st (OAct p ARead) = st.
 Proof. exact (read_clean wr_gen). Qed.
 Print Assumptions C28_read_clean.
 
-(* what the row holds after the final commit is the value the program sees, for all operation sequences outside the
-   recorded defect classes (+=, *=, |= and extend / slice assignment from a non-list iterable that carries containers) *)
-Theorem C28_persisted_except_known : forall ops o v,
-  forallb (fun x => negb (known_bad x)) ops = true ->
+(* what the row holds after the final commit is the value the program sees, for all operation sequences *)
+Theorem C28_persisted : forall ops o v,
   let st := commit (run wr_gen ops (load o v)) in dbval st = canon (untrack (root st)).
 Proof. exact persisted_gen. Qed.
-Print Assumptions C28_persisted_except_known.
+Print Assumptions C28_persisted.
 
-(* every mutating method CPython's list / dict has is wrapped (or replaced) by the Tracked* classes, except the recorded three *)
-Theorem C28_covered_list_except_known : forall s,
-  In s cpython_list_mutators -> ~ In s known_unwrapped_list -> covered_list s = true.
-Proof. exact covered_list_except_known. Qed.
-Print Assumptions C28_covered_list_except_known.
-Theorem C28_covered_dict_except_known : forall s,
-  In s cpython_dict_mutators -> ~ In s known_unwrapped_dict -> covered_dict s = true.
-Proof. exact covered_dict_except_known. Qed.
-Print Assumptions C28_covered_dict_except_known.
-Theorem C28_covered_array_except_known : forall s,
-  In s cpython_list_mutators -> ~ In s known_unwrapped_list -> covered_array s = true.
-Proof. exact covered_array_except_known. Qed.
-Print Assumptions C28_covered_array_except_known.
+(* every mutating method CPython's list / dict has is wrapped (or replaced) by TrackedList / TrackedDict / TrackedArray *)
+Theorem C28_covered_list : forall s, In s cpython_list_mutators -> covered_list s = true.
+Proof. exact covered_list_all. Qed.
+Print Assumptions C28_covered_list.
+Theorem C28_covered_dict : forall s, In s cpython_dict_mutators -> covered_dict s = true.
+Proof. exact covered_dict_all. Qed.
+Print Assumptions C28_covered_dict.
+Theorem C28_covered_array : forall s, In s cpython_list_mutators -> covered_array s = true.
+Proof. exact covered_array_all. Qed.
+Print Assumptions C28_covered_array.
+
+(* every method of the model is wrapped: in particular the three operators added by the fix *)
+Theorem C28_all_wrapped : forall m, wr_gen m = true.
+Proof. exact wr_gen_table. Qed.
+Print Assumptions C28_all_wrapped.
 
 (* the operation language of the model covers every CPython mutator *)
 Theorem C28_model_complete_list : forall s, In s cpython_list_mutators -> In s modelled_list_names \/ In s tracked_list_overridden.
@@ -71,15 +70,17 @@ Theorem C28_model_complete_dict : forall s, In s cpython_dict_mutators -> In s m
 Proof. exact model_complete_dict. Qed.
 Print Assumptions C28_model_complete_dict.
 
-(* non-vacuity: a three-level document, nested mutations, a commit in the middle and a new session *)
+(* non-vacuity: a three-level document, nested mutations incl. the formerly lost operators and a tuple iterable, a commit in the
+   middle and a new session *)
 Example C28_nonvacuous :
-  let ops := [OAct [KKey [100]] (AD (DSetItem [121] (JList [JDict []])));
+  let ops := [OAct [KKey [100]] (AD (DIOr [([121], JList [JDict []])]));
               OAct [KKey [100]; KKey [121]; KIdx 0] (AD (DUpdate [([122], JNum 5)]));
               OCommit;
-              OAct [KKey [97]] (AL (LSetSlice (Some (-1)) None true [JList [JNum 7]]));
+              OAct [KKey [97]] (AL (LIAdd [JList [JNum 7]]));
+              OAct [KKey [97]] (AL (LExtend false [JList []]));
               ONewSession (2%nat, 1%nat);
-              OAct [KKey [97]; KIdx 1] (AL (LAppend JNull))] in
-  forallb (fun x => negb (known_bad x)) ops = true /\
+              OAct [KKey [97]; KIdx 2] (AL (LAppend JNull));
+              OAct [KKey [97]; KIdx 3] (AL (LIMul 2))] in
   dbval (commit (run wr_gen ops (load o1 doc1)))
-  = JDict [([97], JList [JNum 1; JList [JNum 7; JNull]]); ([100], JDict [([120], JNum 1); ([121], JList [JDict [([122], JNum 5)]])])].
-Proof. vm_compute. split; reflexivity. Qed.
+  = JDict [([97], JList [JNum 1; JNum 2; JList [JNum 7; JNull]; JList []]); ([100], JDict [([120], JNum 1); ([121], JList [JDict [([122], JNum 5)]])])].
+Proof. vm_compute. reflexivity. Qed.
